@@ -47,6 +47,9 @@ CASES = [
     ('round-half-even', 'r = numpy.round([a, b, 0.5, 1.5, 2.5, -0.5, -1.5]).tolist() + [float(numpy.round(a, 1)), round(b), round(2.5), round(-3.5)]', dict(a='real', b='real')),
     ('choose-mask-astype', 'm = numpy.zeros(len(x), dtype=bool)\nm[[0]] = True\nr = numpy.choose(m, (x, numpy.round(x))).astype(float).tolist() + numpy.asarray(x).astype(int).tolist() + [m.size]', dict(x='list1')),
     ('sorted-key-abs', 'r = sorted([3, -1, 2, -5], key=abs) + sorted((4, -2, 0), key=abs, reverse=True) + [i]', dict(i='int')),
+    ('sorted-symbolic', 'r = sorted(x) + sorted(x, reverse=True) + sorted([a, b, a])', dict(x='list1', a='real', b='real')),
+    ('accumulate-itemgetter', 'import operator\nr = numpy.maximum.accumulate(x).tolist() + list(numpy.minimum.accumulate([a, b, a])) + list(operator.itemgetter(0, -1)(x)) + [operator.itemgetter(0)(x)]',
+     dict(x='list1', a='real', b='real')),
     ('abs-tolerance', 'r = tol + abs(a) * rel', dict(a='real', tol='real', rel='real')),
 ]
 
